@@ -70,6 +70,7 @@ type E1Result struct {
 	PathCountMax             int
 	Renditions               int
 	DiskRefetchAfterFinalize int
+	DeltaObserved            int // delta updates checked against the history (C04)
 }
 
 func (r *E1Result) addForeign(prop, f string, a ...any) {
@@ -476,6 +477,12 @@ func (e *e1) observe(opIdx int, final bool) {
 		e.checkPlaylist(s, all[s].x, all[s].text, final)
 		if res.Fatal {
 			return
+		}
+		if e.cfg.Variant == VariantLL && e.obsN%2 == 0 {
+			e.checkDelta(s, all[s].x)
+			if res.Fatal {
+				return
+			}
 		}
 	}
 	// all streams expose the same sequence numbers and durations at the same time (C04, C02)
@@ -1596,4 +1603,66 @@ func (e *e1) checkOpenParts(s string, bodies [][]byte, bad func(string, string, 
 		e.res.UnitsDecoded += len(got)
 	}
 	return true
+}
+
+// checkDelta: the delta update of the same state is one more playlist observable from the stream
+// (C04): same EXT-X-MEDIA-SEQUENCE, and every listed entry sits at the sequence number it has in
+// the full playlist (media sequence + skipped + position) with the same URI, duration and gap flag.
+func (e *e1) checkDelta(s string, full *m3u8x.XMedia) {
+	path := e.playlistPath(s)
+	if strings.Contains(path, "?") {
+		path += "&_HLS_skip=YES"
+	} else {
+		path += "?_HLS_skip=YES"
+	}
+	r := e.drv.GetDirect(path)
+	if r.Panic != "" {
+		e.viol("C08", "panic while serving the delta update of %s: %s", s, r.Panic)
+		return
+	}
+	if r.Status != 200 {
+		e.viol("C06", "delta update of %s answered status %d", s, r.Status)
+		return
+	}
+	text := string(r.Body)
+	bad := func(f string, a ...any) bool {
+		return e.viol("C04", "stream %s, observation %d, delta update: %s\n%s", s, e.obsN, fmt.Sprintf(f, a...), text)
+	}
+	x, err := m3u8x.ParseMedia(text)
+	if err != nil || x.MediaSeq == nil {
+		e.viol("C15", "delta update of %s cannot be read: %v\n%s", s, err, text)
+		return
+	}
+	e.res.DeltaObserved++
+	if *x.MediaSeq != *full.MediaSeq {
+		if bad("EXT-X-MEDIA-SEQUENCE is %d, the full playlist of the same state says %d", *x.MediaSeq, *full.MediaSeq) {
+			return
+		}
+	}
+	skipped := int64(0)
+	if x.Skip != nil {
+		skipped = *x.Skip
+	}
+	if int(skipped)+len(x.Segments) != len(full.Segments) {
+		if bad("%d skipped + %d listed segments, the full playlist lists %d", skipped, len(x.Segments), len(full.Segments)) {
+			return
+		}
+	}
+	h := e.hist[s]
+	for k, seg := range x.Segments {
+		msn := *x.MediaSeq + skipped + int64(k)
+		if j := int(skipped) + k; j < len(full.Segments) && full.Segments[j].URI != seg.URI {
+			// both requests carry the same non-_HLS_ query: the URI text must not depend on the directive
+			if bad("media sequence number %d is listed as %q, the full playlist requested with the same query lists %q", msn, seg.URI, full.Segments[j].URI) {
+				return
+			}
+		}
+		b, _ := stripQuery(seg.URI)
+		fact := fmt.Sprintf("%s|%s|%v", b, seg.DurText, seg.Gap)
+		if old, ok := h.segFacts[msn]; ok && old != fact {
+			if bad("media sequence number %d is %s, the full playlists say %s", msn, fact, old) {
+				return
+			}
+		}
+	}
 }
